@@ -67,12 +67,13 @@ ClassSlots ==
     [] CLS = "zeroslot0" -> (0 :> 0 @@ 1 :> K)
     [] CLS = "custom"   -> (0 :> K @@ 1 :> K @@ 2 :> K)
     [] CLS = "single"   -> (0 :> K)
+    [] CLS = "uneven"   -> (0 :> K + 1 @@ 1 :> K)
 Classes == DOMAIN ClassSlots
 Configured(c) == c \in Classes
 NSlots(c) == IF c \in Classes THEN ClassSlots[c] ELSE 0
 DefaultClass ==
   CASE CLS = "simple" -> 1 [] CLS = "movable" -> 2 [] CLS = "zeroed" -> 1
-    [] CLS = "zeroslot" -> 1 [] CLS = "zeroslot0" -> 1 [] CLS = "custom" -> 1 [] CLS = "single" -> 0
+    [] CLS = "zeroslot" -> 1 [] CLS = "zeroslot0" -> 1 [] CLS = "custom" -> 1 [] CLS = "single" -> 0 [] CLS = "uneven" -> 1
 
 \* Policy(requested, target, free) as [kind, prio]
 Policy(req, tgt, free) ==
